@@ -41,6 +41,7 @@ package jsonata
 // obligations establish), never become reachable from shared memory.
 //@ evaltype *jsonata.sequence *jsonata.environment *jsonata.lambdaCallable *jsonata.partialCallable
 //@ evaltype *jsonata.transformationCallable *jsonata.chainCallable *jsonata.sortinfo
+//@ evaltype *jsonata.regexCallable *jsonata.matchCallable *jsonata.undefinedCallable
 
 // Field qualifiers: a field declared owned only ever holds memory allocated by the
 // evaluation (every store into it is checked); a field declared shared always yields
